@@ -16,6 +16,8 @@ package main
 //	session_loop_ends_with_reader       internal/session/session.go (*Session).serve: `case res, ok := <-cmdCh` with
 //	                                    `if !ok { return ... }`
 //	session_done_closes_conn            (*Session).done calls s.conn.Close()
+//	remove_state_cannot_abort_early     internal/backend/user.go (*user).removeState has no return statement before the
+//	                                    state is taken out of user.states (followed by `defer user.statesWG.Done()`)
 
 import (
 	"fmt"
@@ -158,6 +160,37 @@ func factsServe(t *T) (string, error) {
 		}
 		return true
 	})
+	// 5. user.removeState: no return statement (outside function literals) before `defer user.statesWG.Done()`
+	//    except the one that follows the removal from the map itself (fn() failing means the state was not registered)
+	removeOK := false
+	if uf, err := t.ParseFile("internal/backend/user.go"); err == nil {
+		if rs := FuncDecl(uf, "user", "removeState"); rs != nil {
+			userText := func(n ast.Node) string { return t.Src("internal/backend/user.go", n) }
+			posDefer, posRemoval := token.NoPos, token.NoPos
+			var returns []token.Pos
+			walkNoLit(rs.Body, func(x ast.Node) bool {
+				switch v := x.(type) {
+				case *ast.DeferStmt:
+					if strings.Contains(userText(v), "statesWG.Done()") && posDefer == token.NoPos {
+						posDefer = v.Pos()
+					}
+				case *ast.AssignStmt:
+					if len(v.Rhs) == 1 && strings.HasPrefix(userText(v.Rhs[0]), "fn()") && posRemoval == token.NoPos {
+						posRemoval = v.Pos()
+					}
+				case *ast.ReturnStmt:
+					returns = append(returns, v.Pos())
+				}
+				return true
+			})
+			removeOK = posDefer != token.NoPos && posRemoval != token.NoPos && posRemoval < posDefer
+			for _, r := range returns {
+				if r < posRemoval {
+					removeOK = false // an early return: the state would stay registered and statesWG would never be released
+				}
+			}
+		}
+	}
 	b := func(v bool) string {
 		if v {
 			return "true"
@@ -170,7 +203,9 @@ func factsServe(t *T) (string, error) {
 	sb.WriteString("Definition serve_returns_on_done : bool := " + b(returnsOnDone) + ".\n")
 	sb.WriteString("Definition close_stops_serving_before_backend : bool := " + b(closeOrder) + ".\n")
 	sb.WriteString("Definition session_loop_ends_with_reader : bool := " + b(loopEnds) + ".\n")
-	sb.WriteString("Definition session_done_closes_conn : bool := " + b(doneCloses) + ".\n\n")
+	sb.WriteString("Definition session_done_closes_conn : bool := " + b(doneCloses) + ".\n")
+	sb.WriteString("(* user.removeState cannot return before the state has left user.states (after which statesWG.Done is deferred) *)\n")
+	sb.WriteString("Definition remove_state_cannot_abort_early : bool := " + b(removeOK) + ".\n\n")
 	sb.WriteString("(* Close closes every accepted connection before it turns to the backend *)\n")
 	sb.WriteString("Definition close_closes_accepted_conns : bool :=\n  andb serve_defers_conn_close_on_return (andb serve_returns_on_done (andb close_stops_serving_before_backend session_loop_ends_with_reader)).\n")
 	return sb.String(), nil
